@@ -99,6 +99,7 @@ type Explorer struct {
 	MaxFindings    int
 	NoMerge        bool
 	TreeMode       bool
+	muted          bool
 	onAssume       func(t *smt.Term)
 	Merges         int
 	Workers        int
@@ -180,7 +181,10 @@ func (e *Explorer) next() bool {
 }
 
 func (e *Explorer) assume(t *smt.Term) {
-	if t.IsTrue() {
+	if t.IsTrue() || e.muted {
+		// muted: an ancestor thread is being replayed only to re-create the
+		// objects a spawned thread starts from; its branch conditions must not
+		// constrain the exploration of that thread
 		return
 	}
 	e.pc = append(e.pc, t)
